@@ -363,6 +363,11 @@ pub fn scope_parent_progs() -> Vec<Prog> {
     out
 }
 
+pub fn in_negative_bank(mut p: Prog) -> Prog {
+    p.items.insert(0, Item::Bankdef(BankSrc { name: "neg".into(), bits: Some(8), addr: Some(-0x100), size: None, outp: Some(0), fill: false, labelalign: None }));
+    p
+}
+
 /// sizes of the instruction items as claimed by the real result (from the spans, in program order)
 pub fn claimed_sizes(prog: &Prog, obs: &Obs) -> Option<Vec<usize>> {
     let mut k = 0;
@@ -552,6 +557,19 @@ pub fn run(ctx: &Ctx) -> Report {
             judge_sw(&prog_of(f, &seq), f.name, b, sw, l);
         }));
         levels.push(json!({"family": f.name, "max_len": maxlen, "programs": n, "runs": n * (if ctx.thorough { 4 } else { 2 }) * budgets.len() as u64}));
+    }
+    // the pc-relative family once more inside a bank at a NEGATIVE address: label values that no machine word holds
+    // must be compared, converge and be certified like any other
+    for f in fams.iter().filter(|f| f.name == "pc-relative") {
+        let k = f.items.len() as u64;
+        let maxlen: u32 = f.maxlen(ctx.thorough);
+        let b = &budgets;
+        let sw: &[(bool, bool)] = if ctx.thorough { &SWITCHES } else { &[(true, true), (false, false)] };
+        rep.absorb(par_run(seq_count(k, maxlen), |i, l| {
+            let seq = seq_decode(i, k, maxlen);
+            judge_sw(&in_negative_bank(prog_of(f, &seq)), "pc-relative-in-a-bank-at-a-negative-address", b, sw, l);
+        }));
+        levels.push(json!({"family": "pc-relative inside a bank at address -0x100", "max_len": maxlen, "programs": seq_count(k, maxlen)}));
     }
     // skeleton grid
     let all_budgets: Vec<usize> = (1..=30).collect();
